@@ -320,6 +320,18 @@ Definition restr_true (c : vcase) : bool :=
 Definition ok_C06 (c : vcase) (base : bool) (o : outcome) : bool :=
   (negb (is_accept o) || restr_true c) && (negb (base && restr_true c) || is_accept o).
 
+(* known finding (C06): the legacy verifier refuses every request whose restrictions mention both
+   issuer_id and issuer_did (or schema_issuer_id and schema_issuer_did), whatever their truth *)
+Definition request_tags (R : request) : list string :=
+  flat_map (fun '(_, ai) => flat_map names (opt_list (ai_restr ai))) (rq_attrs R)
+  ++ flat_map (fun '(_, pi) => flat_map names (opt_list (pi_restr pi))) (rq_preds R).
+Definition mixed_legacy_tags (c : vcase) : bool :=
+  match c with
+  | CLegacy R _ _ => let t := request_tags R in
+                     (mem "issuer_id" t && mem "issuer_did" t) || (mem "schema_issuer_id" t && mem "schema_issuer_did" t)
+  | CW3C _ _ _ => false
+  end.
+
 (* ---- well-formedness of a case (precondition of the theorems; checked on every case) ---- *)
 (* the attribute names inside CL sub-proofs are normalised (the
    library builds every CL credential value under attr_common_view of its name) *)
